@@ -80,11 +80,15 @@ def run(case):
         if case.get("k") == "ann":
             from harness.annutil import mk_ann, nm
             a, b = mk_ann(tb, case["a"]), mk_ann(tb, case["b"])
+            for x in (a, b):
+                assert list(x.co_iter(x)) == list(x.co_iter(x.copy())), "co_iter(x, x) differs from co_iter(x, x.copy())"
             return {"obs": [[[tb.us(s), nm(t)], [tb.us(S), nm(T)]] for (s, t), (S, T) in a.co_iter(b)]}
         t = mk_tl(tb, case["t"], uri="u")
         o = mk_tl(tb, case["other"])
         sup = mk_sup(tb, case["sup"])
         out = {"coiter": [[tb.us(a), tb.us(b)] for a, b in t.co_iter(o)]}
+        for x in (t, o):
+            assert list(x.co_iter(x)) == list(x.co_iter(x.copy())), "co_iter(x, x) differs from co_iter(x, x.copy())"
         for m in ("loose", "strict", "intersection"):
             c = t.crop(sup, mode=m)
             assert c.uri == "u"
